@@ -177,6 +177,7 @@ pub fn uninstall() {
 pub struct Env {
     pub v: VVM,
     pub acct: Address,
+    pub keccak_ok: bool,
 }
 
 pub struct StorageHash;
@@ -255,7 +256,9 @@ impl Env {
     pub fn new(seed: u64) -> Env {
         let v = VVM::genesis(Policy::default());
         let acct = v.create_accounts(1, seed, &TokenAmount::from_whole(1_000_000))[0];
-        Env { v, acct }
+        let mut e = Env { v, acct, keccak_ok: false };
+        e.keccak_ok = keccak_selftest(&e);
+        e
     }
 
     /// CreateExternal with arbitrary init code.
@@ -360,14 +363,22 @@ impl Prog {
     }
 }
 
-/// Does the VM's keccak-256 (as the EVM actor reaches it: Primitives::hash_64) give the well-known
-/// digest of the empty string?  (test_utils' FakePrimitives::hash_64 returns the multihash code as the
-/// digest length.)  The specification's two built-in digests are only checked if it does.
-pub fn keccak_known(v: &VVM) -> bool {
-    use fil_actors_runtime::runtime::Primitives;
-    use fvm_shared::crypto::hash::SupportedHashes;
-    let (buf, len) = v.primitives().hash_64(SupportedHashes::Keccak256, &[]);
-    len == 32 && buf[..4] == [0xc5, 0xd2, 0x46, 0x01] && buf[28..32] == [0x5d, 0x85, 0xa4, 0x70]
+/// Does the VM's keccak-256, as the EVM actor reaches it, give the well-known digest of the empty
+/// string?  (Decided by running PUSH0 PUSH0 KECCAK256 PUSH0 MSTORE PUSH1 32 PUSH0 RETURN; test_utils'
+/// FakePrimitives::hash_64 used to return the multihash code as the digest length.)  The
+/// specification's two built-in digests are only checked if it does.
+pub fn keccak_known(env: &Env) -> bool {
+    env.keccak_ok
+}
+fn keccak_selftest(env: &Env) -> bool {
+    match env.deploy(&[0x5f, 0x5f, 0x20, 0x5f, 0x52, 0x60, 0x20, 0x5f, 0xf3]) {
+        Err(_) => false,
+        Ok(a) => {
+            let o = env.invoke(&a, &[]);
+            let out = out_bytes(&o);
+            o.ok() && out.len() == 32 && out[..4] == [0xc5, 0xd2, 0x46, 0x01] && out[28..] == [0x5d, 0x85, 0xa4, 0x70]
+        }
+    }
 }
 
 pub fn consts(keccak_ok: bool) -> Value {
@@ -422,12 +433,13 @@ impl Runner {
         Runner { env: Env::new(seed), first: true, tlc_budget: 400_000, skipped_cmp: 0, seed, made: 0 }
     }
 
-    fn header(&mut self, p: &Prog, cmp: bool, stat: bool) -> Value {
+    fn header(&mut self, p: &Prog, cmp: bool, stat: bool, storage0: &[([u8; 32], [u8; 32])]) -> Value {
         let ev = if self.first { "Init" } else { "Reset" };
         self.first = false;
-        json!({"ev": ev, "const": consts(keccak_known(&self.env.v)), "kind": p.kind, "code": bytes_json(&p.code),
+        let s0: Vec<Value> = storage0.iter().map(|(k, v)| json!([word_json(k), word_json(v)])).collect();
+        json!({"ev": ev, "const": consts(keccak_known(&self.env)), "kind": p.kind, "code": bytes_json(&p.code),
                "calldata": bytes_json(&p.calldata), "static": stat, "fuel": p.fuel, "fd": p.fd,
-               "cmp": cmp, "id": p.id, "st": "-"})
+               "cmp": cmp, "id": p.id, "storage0": s0, "st": "-"})
     }
 
     pub fn step_events(steps: &[StepRec]) -> Vec<Value> {
@@ -447,6 +459,8 @@ impl Runner {
         if self.made % 400 == 0 {
             self.env = Env::new(self.seed + self.made as u64);
         }
+        let mut hp = p.clone();           // the program as the header describes it
+        let mut storage0: Vec<([u8; 32], [u8; 32])> = vec![];
         let (o, steps, rec_depth, rec_ms, target): (Outcome, Vec<StepRec>, usize, usize, Option<Address>) =
             if p.kind == "init" {
                 let rec = install(p.fuel, p.fd);
@@ -461,19 +475,36 @@ impl Runner {
                 let steps = rec.steps.borrow().clone();
                 (o, steps, *rec.max_depth.borrow(), *rec.max_ms.borrow(), target)
             } else {
-                match self.env.deploy(&p.code) {
+                // "call": p.code is runtime code, deployed through the loader;
+                // "initcall": p.code is init code, run unobserved; whatever contract it creates is called
+                let created = if p.kind == "initcall" {
+                    let o = self.env.create(&p.code);
+                    if o.ok() {
+                        let r: fil_actor_eam::CreateExternalReturn = o.de();
+                        Ok(Address::new_id(r.actor_id))
+                    } else {
+                        Err(o)
+                    }
+                } else {
+                    self.env.deploy(&p.code)
+                };
+                match created {
                     Err(o) => {
                         // cannot exist on chain (e.g. first byte 0xEF, too long): record as such
-                        let h = self.header(p, false, false);
+                        let class = if p.kind == "initcall" { "uncreated" } else { "undeployable" };
+                        let h = self.header(p, false, false, &[]);
                         t.line(&h);
                         t.traces += 1;
-                        t.line(&json!({"ev": "End", "class": "undeployable", "code": o.code.value(),
+                        t.line(&json!({"ev": "End", "class": class, "code": o.code.value(),
                                        "out": [], "storage": [], "panicked": o.panicked, "steps": 0,
-                                       "msg": o.message, "stok": true,
-                                       "st": "undeployable"}));
-                        return RunResult { class: "undeployable".into(), steps: 0, max_depth: 0, max_ms: 0, panicked: o.panicked };
+                                       "msg": "-", "stok": true, "st": class}));
+                        return RunResult { class: class.into(), steps: 0, max_depth: 0, max_ms: 0, panicked: o.panicked };
                     }
                     Ok(addr) => {
+                        if p.kind == "initcall" {
+                            hp.code = self.bytecode_of(&addr);
+                            storage0 = self.env.storage_kamt(&addr);
+                        }
                         let rec = install(p.fuel, p.fd);
                         let o = self.env.invoke(&addr, &p.calldata);
                         uninstall();
@@ -523,7 +554,7 @@ impl Runner {
         if !cmp {
             self.skipped_cmp += 1;
         }
-        let h = self.header(p, cmp, false);
+        let h = self.header(&hp, cmp, false, &storage0);
         t.line(&h);
         t.traces += 1;
         for e in Self::step_events(&steps) {
